@@ -36,7 +36,7 @@ ASSUMPTIONS = [
 FLOORS = {
     'quick': {'cases': 12000, 'memo_mattered': 2500, 'cfg:memo_off': 8000, 'cfg:plm_0.01': 10000, 'cfg:trace': 10000,
               'cfg:trace_color': 10000, 'cfg:parseinfo': 10000, 'cfg:noprune': 10000, 'lrec_cases': 1000,
-              'trace_chars': 100000, 'trace_escapes': 1000, 'accepted': 4000, 'failed': 3000, 'similar_rule_names': 500},
+              'trace_chars': 100000, 'trace_escapes': 1000, 'accepted': 4000, 'failed': 3000, 'similar_rule_names': 500, 'failing_semantics_mattered': 2000, 'cfg_failing:memo_off': 8000},
     'thorough': {'cases': 250000, 'memo_mattered': 50000, 'lrec_cases': 20000},
 }
 PEAK_COUNTERS = ('max_memo_len_over_capacity',)
@@ -114,9 +114,22 @@ CONFIGS = [
 ]
 
 
-def run(model, g, text, settings, probe=False):
+def failing_semantics(salt):
+    """a deterministic action that rejects some rule values with FailedSemantics (same decisions under every configuration)"""
+    from tatsu.exceptions import FailedSemantics
+
+    def transform(name, ast, n):
+        if h64(salt, name, crepr(ast)) % 3 == 0:
+            raise FailedSemantics(f'rejected {name}')
+        return ast
+    return Recorder(transform=transform, record=False)
+
+
+def run(model, g, text, settings, probe=False, failing=None):
     from tatsu.exceptions import FailedParse
     sem = Recorder() if probe else None
+    if failing is not None:
+        sem = failing_semantics(failing)
     kw = dict(settings)
     if sem is not None:
         kw['semantics'] = sem
@@ -177,6 +190,23 @@ def check_case(acc, g, model, text, lrec, origin):
                 acc.count('memo_mattered')
                 acc.count('action_runs_saved', saved)
                 acc.nontriv(L.grammar_text(g), text)
+    # the same relation under a semantics whose actions reject some values (FailedSemantics is memoized like a failure)
+    salt = len(text)
+    base_f, _, _ = run(model, g, text, {}, failing=salt)
+    if base_f != base:
+        acc.count('failing_semantics_mattered')
+    for name, settings in CONFIGS:
+        if name in ('trace', 'trace_color', 'parseinfo', 'plm_1') or (name == 'memo_off' and lrec):
+            continue
+        out, _, _ = run(model, g, text, settings, failing=salt)
+        acc.evaluations += 1
+        acc.count('cfg_failing:' + name)
+        if out != base_f:
+            acc.violation(f'outcome-failing-semantics/{name}/{relation(base_f, out)}',
+                          f'with actions that raise FailedSemantics, configuration {name} {settings} changed the outcome: grammar '
+                          f'{L.grammar_text(g).strip()!r} input {text!r} DEFAULT={base_f} VARIANT={out}',
+                          {'grammar': L.to_json(g), 'grammar_text': L.grammar_text(g), 'text': text, 'config': name,
+                           'settings': settings, 'baseline': base_f, 'variant': out, 'origin': origin, 'failing_salt': salt})
 
 
 def relation(a, b):
